@@ -58,7 +58,20 @@ def judge(res: core.Res, run: _site.Run, label: str, w: Dict[str, Any]) -> None:
         exp = glob_ref.ref_privacy(o.fullName(), o.name, rules)
         if (exp == 'HIDDEN') != (o.privacyClass is model.PrivacyClass.HIDDEN) or (exp == 'PRIVATE') != (o.privacyClass is model.PrivacyClass.PRIVATE):
             res.v('C12:privacy-differs-from-rule-list', f'{label}: {o.fullName()} is {o.privacyClass.name}, the rule list {[f"{a}:{b}" for a, b in rules]} says {exp}', obj=o.fullName(), **w)
-    hidden = [o for o in system.allobjects.values() if not o.isVisible]
+    # "hidden" reaches down: an object below a hidden module, package or class (a root included) is hidden with it
+    ref_hidden = set()
+    for o in system.allobjects.values():
+        chain, p_ = [], o
+        while p_ is not None:
+            chain.append(p_)
+            p_ = p_.parent
+        # (a module named __main__ has a privacy of its own, whatever the rules say: same exemption as above)
+        if any(' ' not in c.fullName() and not (isinstance(c, model.Module) and c.name == '__main__') and glob_ref.ref_privacy(c.fullName(), c.name, rules) == 'HIDDEN' for c in chain):
+            ref_hidden.add(id(o))
+            res.c('visibility_vs_rule_list')
+            if o.isVisible:
+                res.v('C12:visible-although-hidden-by-the-rules', f'{label}: {o.fullName()} counts as visible although the rule list {[f"{a}:{b}" for a, b in rules]} hides it or one of its containers', obj=o.fullName(), **w)
+    hidden = [o for o in system.allobjects.values() if not o.isVisible or id(o) in ref_hidden]
     private = [o for o in system.allobjects.values() if o.isVisible and o.privacyClass is model.PrivacyClass.PRIVATE]
     visible_names = {o.fullName() for o in system.allobjects.values() if o.isVisible}
     docs = {d['id']: d for d in out.all_documents()}
